@@ -4,6 +4,7 @@ package main
 // every check that compiles into package main of cmd/keymasterd.
 
 import (
+	"bufio"
 	"bytes"
 	"crypto"
 	"crypto/ecdsa"
@@ -25,6 +26,7 @@ import (
 	"net/http/httptest"
 	"net/url"
 	"os"
+	"path/filepath"
 	"runtime/debug"
 	"strings"
 	"sync"
@@ -42,6 +44,7 @@ import (
 	"github.com/go-jose/go-jose/v4/jwt"
 	"golang.org/x/crypto/ssh"
 	"golang.org/x/time/rate"
+	"gopkg.in/yaml.v2"
 )
 
 func TestMain(m *testing.M) {
@@ -684,4 +687,79 @@ func trunc(b []byte, n int) string {
 		return string(b[:n]) + "..."
 	}
 	return string(b)
+}
+
+// ---------------------------------------------------------------- config-file worlds
+
+var vGenConfig = struct {
+	sync.Mutex
+	dirs map[string]string // passphrase -> directory holding a generated configuration
+}{dirs: map[string]string{}}
+
+// vLoadedState builds a RuntimeState the way the daemon does: a configuration
+// generated by generateNewConfigInternal (once per process and passphrase),
+// modified by tweak, then loaded with loadVerifyConfigFile. With a non-empty
+// passphrase the CA key is PGP encrypted and the state starts sealed.
+func vLoadedState(passphrase string, tweak func(cfg *AppConfigFile)) (*RuntimeState, string) {
+	vGenConfig.Lock()
+	dir, ok := vGenConfig.dirs[passphrase]
+	if !ok {
+		var err error
+		dir, err = os.MkdirTemp("", "verif-config")
+		if err != nil {
+			panic(err)
+		}
+		// the generator prints the configuration to stdout; keep test output clean
+		devnull, _ := os.OpenFile(os.DevNull, os.O_WRONLY, 0)
+		saved := os.Stdout
+		os.Stdout = devnull
+		reader := bufio.NewReader(strings.NewReader(dir + "\n\n" + vHostIdentity + "\n" + vHTTPAddress + "\n\n\n\n\n\n\n\n\n\n\n\n\n"))
+		err = generateNewConfigInternal(reader, filepath.Join(dir, "config-base.yml"), 2048, []byte(passphrase))
+		os.Stdout = saved
+		devnull.Close()
+		if err != nil {
+			panic(fmt.Sprintf("verif: generateNewConfigInternal: %v", err))
+		}
+		vGenConfig.dirs[passphrase] = dir
+	}
+	vGenConfig.Unlock()
+	raw, err := os.ReadFile(filepath.Join(dir, "config-base.yml"))
+	if err != nil {
+		panic(err)
+	}
+	var cfg AppConfigFile
+	if err := yaml.Unmarshal(raw, &cfg); err != nil {
+		panic(err)
+	}
+	dataDir, err := os.MkdirTemp("", "verif-data")
+	if err != nil {
+		panic(err)
+	}
+	cfg.Base.DataDirectory = dataDir
+	cwd, _ := os.Getwd()
+	cfg.Base.SharedDataDirectory = cwd
+	// the interview keeps the line terminators of some answers
+	cfg.Base.HostIdentity = vHostIdentity
+	cfg.Base.HttpAddress = vHTTPAddress
+	cfg.Base.AdminAddress = ":36920"
+	if tweak != nil {
+		tweak(&cfg)
+	}
+	out, err := yaml.Marshal(&cfg)
+	if err != nil {
+		panic(err)
+	}
+	f, err := os.CreateTemp(dir, "config-*.yml")
+	if err != nil {
+		panic(err)
+	}
+	f.Write(out)
+	f.Close()
+	state, err := loadVerifyConfigFile(f.Name(), logger)
+	os.Remove(f.Name())
+	if err != nil {
+		panic(fmt.Sprintf("verif: loadVerifyConfigFile: %v", err))
+	}
+	state.dbDone <- struct{}{}
+	return state, dataDir
 }
